@@ -55,7 +55,8 @@ def scenario(draw):
     for _ in range(draw(st.integers(0, 4))):
         faults[str(draw(st.integers(0, 10)))] = draw(st.sampled_from(['garbage', 'garbage-joined', 'late', 'silent', 'close-before', 'close-inside', 'close-after', 'chunk1', 'chunk3']))
     return {'kind': 'scenario', 'io': kind, 'callers': callers, 'faults': faults, 'refuse': draw(st.sampled_from([0, 0, 1, 3])),
-            'wait_before': draw(st.sampled_from([WAIT_BEFORE, WAIT_BEFORE, 0])), 'raising_cb': draw(st.integers(0, 3)) == 0,     # (0 is the default of the communicators)
+            'wait_before': draw(st.sampled_from([WAIT_BEFORE, WAIT_BEFORE, 0])), 'raising_cb': draw(st.integers(0, 3)) == 0,
+            'polled_dev': draw(st.integers(0, 2)) == 0, 'close_all_from': draw(st.sampled_from([None, None, None, None, 1, 3])),     # (0 is the default of the communicators)
             'banner': draw(st.booleans()), 'eol': draw(st.sampled_from(['\n', '\n', '\r\n'])), 'ident': draw(st.integers(0, 2)) == 0, 'connect_delay': draw(st.sampled_from([0, 0, 0.05])), 'poller': draw(st.sampled_from(['model', 'real'])), 'schedule': draw(st.lists(st.integers(0, 4), min_size=10, max_size=200))}
 
 
@@ -107,6 +108,8 @@ class Device:
         if w.case['io'] == 'string' and cmd.startswith(b'm') and cmd in w.noreply:
             return
         fault = w.case['faults'].get(str(idx))
+        if w.case.get('close_all_from') is not None and idx >= w.case['close_all_from']:
+            fault = 'close-before'      # a port forwarder whose target is down: accepts, then closes on the first request
         reply = self.reply_for(cmd)
         if fault == 'late' and not w.case.get('wait_before', WAIT_BEFORE):
             # without a pause before sending, a reply coming in late can not be told from the reply to the next command
@@ -259,6 +262,25 @@ def run(case, preempt=None):
                 return do_poll()
             io.doPoll = counted
             io.initModule()
+            if case.get('polled_dev') and case['io'] == 'string':
+                # a module using the communicator, polled by the communicator's thread (as every driver is)
+                from frappy.core import Readable
+                from frappy.io import HasIO
+
+                out['dev_polls'] = dev_polls = []
+
+                class Dev(HasIO, Readable):
+                    ioClass = cls
+
+                    def read_value(self):
+                        dev_polls.append(dsched.v_time())
+                        self.communicate('p')
+                        return 1.0
+                dev = Dev('dev', L(), {'description': 'device', 'io': 'io', 'pollinterval': {'value': INTERVAL}}, srv)
+                dev.attachedModules['io'] = io
+                dev.earlyInit()
+                dev.initModule()
+                out['dev'] = dev
             io.startModule(types.SimpleNamespace(get_trigger=lambda timeout=None: (lambda: None)))
             pt = None
         else:
@@ -415,7 +437,7 @@ def check(ctx, case):
                 ctx.finding('failure-later-than-timeout', dict(case, focus=r['op']), f'command seen by the device at +{sent[0] - s.t0:.2f}, call failed at +{r["t1"] - s.t0:.2f}')
                 return
     # connection state becomes visible after a disconnect
-    for td in world.disconnects:
+    for td in (world.disconnects if case.get('close_all_from') is None else []):     # (a device closing every connection: the state flaps)
         later = [r for r in out['results'] if r['t0'] >= td and r.get('exc') is not None]
         for r in later[:1]:
             if r['connected_after'] and not any(ta >= td for ta in world.accepted[1:]):
@@ -427,30 +449,40 @@ def check(ctx, case):
     # the framework's poll thread reaches read_is_connected both through doPoll (every pollinterval) and through the periodic
     # poll of the parameter is_connected (every slowinterval): its second attempt within one interval is the known finding
     # C16:...:poll-thread-main-and-parameter-poll; it is told apart by judging the attempts without these duplicates first
-    dedup, last_poll = [], None
-    for n_, (t, p) in enumerate(zip(attempts, by_poller)):
-        if p and case.get('poller') == 'real':
-            if last_poll is not None and t - last_poll < INTERVAL * 0.99:
-                continue
-            last_poll = t
-        dedup.append((n_, t))
-    for name, lst in (('', dedup), (':poll-thread-main-and-parameter-poll', list(enumerate(attempts)))):
-        for td, mark in zip(world.disconnects, world.disconnect_marks):
-            after = [t for n_, t in lst if t >= td and n_ >= mark]
-            # two sources try to reconnect: the poll of is_connected (once per interval) and the callers (rate limited to once per
-            # interval): any window shorter than the interval may hold at most one attempt of each
-            for i, a in enumerate(after):
-                if len([b for b in after[i:] if b - a < INTERVAL * 0.99]) > 2:
-                    ctx.finding('reconnect-attempts-too-frequent' + name, case,
-                                f'connection attempts at {[(round(t - s.t0, 2), n) for t, n in zip(attempts, out["net"].attempt_threads) if t >= td][:8]} (interval {INTERVAL})')
-                    return
+    real = case.get('poller') == 'real'
+    known = None
+    for td, mark in zip(world.disconnects, world.disconnect_marks):
+        after = [(t, p) for n_, (t, p) in enumerate(zip(attempts, by_poller)) if t >= td and n_ >= mark]
+        # two sources try to reconnect: the poll thread and the callers (rate limited to once per interval). any window shorter
+        # than the interval may hold one attempt of the callers and one of the poll thread - two of the framework's own poll
+        # thread (its two paths, the known finding when a caller's attempt comes on top); anything more is not tolerated
+        for i, (a, _) in enumerate(after):
+            # (the rate limit works on the time of the decision; an attempt is recorded when the connection is made, which is
+            # later by the wait for the lock and the connection delay: 5 % tolerance)
+            win = [x for x in after[i:] if x[0] - a < INTERVAL * 0.95]
+            npoll = sum(1 for _, p in win if p)
+            ncall = len(win) - npoll
+            text = f'connection attempts at {[(round(t - s.t0, 2), n) for t, n in zip(attempts, out["net"].attempt_threads) if t >= td][:8]} (interval {INTERVAL})'
+            # (a sweep of the framework's poll thread makes up to two attempts - the known finding -, and a sweep triggered
+            # in between, e.g. by a caller noticing the loss, two more; a device closing every connection again used to get
+            # attempts as fast as the loop runs)
+            if ncall > 1 or npoll > (4 if real else 1):
+                ctx.finding('reconnect-attempts-too-frequent' + (':poll-thread' if npoll > 2 else ''), case, text)
+                return
+            if real and npoll >= 2 and ncall + npoll > 2:
+                known = text
+    if known:
+        ctx.finding('reconnect-attempts-too-frequent:poll-thread-main-and-parameter-poll', case, known)
+        return
     ctx.ok('reconnect-rate')
     # (7) after a successful reconnect every registered callback ran exactly once; the connection heals
     nrec = max(0, len(world.accepted) - 1)
     if case.get('ident') and case['io'] == 'string':
         # a connection is established when the identification exchange went through (an accepted connection may be closed before)
         nrec = max(0, len(world.idents) - 1)
-    if world.disconnects and not out.get('connected_at_end'):
+    # (with a polled module the device sees commands until the end: a connection lost shortly before has no time to heal)
+    if world.disconnects and not out.get('connected_at_end') and case.get('close_all_from') is None and \
+            max(world.disconnects) + INTERVAL * (case.get('refuse', 0) + 2) + 1 <= out.get('end_time', 0):
         ctx.finding('not-reconnected-at-the-end', case, f'disconnects {len(world.disconnects)}, accepted connections {len(world.accepted)}')
         return
     if out.get('foreign_callbacks'):
@@ -461,17 +493,19 @@ def check(ctx, case):
             ctx.finding(f'reconnect-callback-count:{"missing" if n < nrec else "too-many"}', case, f'{nrec} reconnects, callback {name} ran {n} times')
             return
     ctx.ok('self-healing')
-    if case.get('poller') == 'real':
-        # polling resumes: the framework's poll thread polls again right after every reconnect (not only at its next regular turn)
+    if case.get('poller') == 'real' and 'dev_polls' in out and case.get('close_all_from') is None:
+        # polling resumes: the modules using the communicator are polled again right after every reconnect (not only at their
+        # next regular turn)
         established = world.idents if case.get('ident') and case['io'] == 'string' else world.accepted
         for k, t in enumerate(established[1:], 1):
-            if t + TIMEOUT + 1 < out.get('end_time', 0) and not any(t <= p <= t + TIMEOUT + 1 for p in out['polls']):
-                nxt = min([p for p in out['polls'] if p > t] or [float('inf')])
+            if t + TIMEOUT + 1 < out.get('end_time', 0) and not any(t <= p <= t + TIMEOUT + 1 for p in out['dev_polls']):
+                nxt = min([p for p in out['dev_polls'] if p > t] or [float('inf')])
                 ctx.finding(f'polling-not-resumed-after-reconnect:{"first" if k == 1 else "later"}', case,
                             f'reconnect {k} at {t - s.t0:.2f}: next poll at {nxt - s.t0:.2f}')
                 return
         ctx.ok('polling-resumed')
-        ctx.label('poller:real')
+    if case.get('poller') == 'real':
+        ctx.label('poller:real' + (':with-polled-module' if 'dev_polls' in out else ''))
     if case.get('ident') and case['io'] == 'string':
         ctx.label('identification-on-connect')
     ctx.label(f'io:{case["io"]}', f'eol:{case.get("eol", chr(10))!r}', f'disconnects:{len(world.disconnects)}', *[f'fault:{v}' for k, v in case['faults'].items() if int(k) < len(world.commands)])
